@@ -38,6 +38,15 @@ pub fn declared_sweep(ctx: &mut Ctx, n: u64) {
             check_buffer(ctx, &b2, &o);
             ctx.evals_n(2);
             ctx.count_n("excess-sweep", 2);
+            // an excess that is a multiple of 2^16 (a 16-bit comparison of the two sizes would not see it)
+            if k == 1 && rng.chance(1, 24) {
+                for big_k in [65_536usize, 131_072] {
+                    let mut big = buf.clone();
+                    big.resize(buf.len() + big_k, *rng.pick(&[0u8, 0x5a]));
+                    check_buffer(ctx, &big, &o);
+                    ctx.count("excess-multiple-of-65536");
+                }
+            }
         }
     }
 }
@@ -120,6 +129,7 @@ pub fn run(ctx: &mut Ctx) {
     ctx.require("reject:FingerprintMismatch", 50);
     ctx.require("declared-sweep", 1_000);
     ctx.require("excess-sweep", 1_000);
+    ctx.require("excess-multiple-of-65536", 20);
     ctx.require("stream:skeleton", 1_000);
 }
 
